@@ -496,6 +496,7 @@ Lemma copy_getstate_spec k inh i :
   exists c, shallow_copy k inh i = Ok c /\
     (forall a, In a (k_attrs k) -> read k c (a_name a) = read k i (a_name a)) /\
     (k_cache_hash k = true -> read k c HASH_CACHE = Ok VNone) /\
+    (k_cache_hash k = false -> read k c HASH_CACHE = Raise EAttributeError) /\
     (forall m, ~ In m (map a_name (k_attrs k)) -> m <> HASH_CACHE -> read k c m = Raise EAttributeError).
 Proof.
   intros W Hg Hr. unfold shallow_copy. rewrite Hg.
@@ -514,9 +515,11 @@ Proof.
     exists c. split; [reflexivity|]. repeat split.
     + intros a Ha. rewrite R2; [now apply Hf|]. intros E. apply (wf_cache_name k W). rewrite <- E. now apply in_map.
     + intros _. exact R1.
+    + discriminate.
     + intros m Hm Hc. rewrite R2 by exact Hc. rewrite Q2 by exact Hm. apply read_empty.
-  - exists n1. split; [reflexivity|]. repeat split; auto; [discriminate|].
-    intros m Hm _. rewrite Q2 by exact Hm. apply read_empty.
+  - exists n1. split; [reflexivity|]. repeat split; auto; [discriminate| |].
+    + intros _. rewrite Q2 by (apply (wf_cache_name k W)). apply read_empty.
+    + intros m Hm _. rewrite Q2 by exact Hm. apply read_empty.
 Qed.
 
 Lemma copy_dict_spec k inh i :
@@ -534,22 +537,30 @@ Qed.
 
 (** ** assoc *)
 
-Lemma field_name_found k n : In n (map a_name (k_attrs k)) -> fields_getattr_found k n = true.
-Proof. intros H. unfold fields_getattr_found, is_field_name. apply mem_str_In in H. now rewrite H. Qed.
+Lemma field_name_accepted old k n : In n (map a_name (k_attrs k)) -> name_accepted old k n = true.
+Proof.
+  intros H. unfold name_accepted, fields_getattr, is_field_name. apply mem_str_In in H. now rewrite H.
+Qed.
+
+Lemma not_field_rejected k n : ~ In n (map a_name (k_attrs k)) -> name_accepted false k n = false.
+Proof.
+  intros H. unfold name_accepted, fields_getattr, is_field_name. apply mem_str_false in H. rewrite H.
+  destruct (mem_str n TUPLE_ATTRS); reflexivity.
+Qed.
 
 Lemma field_name_storable k n : wf k -> In n (map a_name (k_attrs k)) -> storable k n.
 Proof. intros W H. apply in_map_iff in H as (a & <- & Ha). now apply attr_name_storable. Qed.
 
-Lemma assoc_loop_fields k : forall changes new,
+Lemma assoc_loop_fields old k : forall changes new,
   wf k -> NoDup (map fst changes) ->
   (forall n, In n (map fst changes) -> In n (map a_name (k_attrs k))) ->
-  exists new', assoc_loop k new changes = AssocDone new' /\
+  exists new', assoc_loop old k new changes = AssocDone new' /\
     forall m, read k new' m = match lookup m changes with Some v => Ok v | None => read k new m end.
 Proof.
   induction changes as [|[n v] r IH]; intros new W ND Hk.
   - exists new. split; reflexivity.
   - cbn [map fst] in ND. inversion ND as [|? ? Hnotin ND']; subst. cbn [assoc_loop].
-    rewrite field_name_found by (apply Hk; now left).
+    rewrite field_name_accepted by (apply Hk; now left).
     destruct (obj_setattr_ok k new n v) as (n1 & -> & R1 & R2 & _).
     { apply field_name_storable; [exact W | apply Hk; now left]. }
     destruct (IH n1 W ND' (fun m Hm => Hk m (or_intror Hm))) as (new' & E & Q).
@@ -561,21 +572,80 @@ Proof.
     + destruct (lookup m r); [reflexivity|]. apply R2. intros ->. now rewrite String.eqb_refl in Emn.
 Qed.
 
-Lemma assoc_loop_prefix k : forall pre new rest,
+Lemma assoc_loop_prefix old k : forall pre new rest,
   wf k -> (forall n, In n (map fst pre) -> In n (map a_name (k_attrs k))) ->
-  exists new', assoc_loop k new (pre ++ rest) = assoc_loop k new' rest.
+  exists new', assoc_loop old k new (pre ++ rest) = assoc_loop old k new' rest.
 Proof.
   induction pre as [|[n v] r IH]; intros new rest W Hk.
   - exists new. reflexivity.
-  - cbn [app assoc_loop]. rewrite field_name_found by (apply Hk; now left).
+  - cbn [app assoc_loop]. rewrite field_name_accepted by (apply Hk; now left).
     destruct (obj_setattr_ok k new n v) as (n1 & -> & _).
     { apply field_name_storable; [exact W | apply Hk; now left]. }
     apply IH; [exact W|]. intros m Hm. apply Hk. now right.
 Qed.
 
+(** The current code stores only under field names. *)
+Lemma assoc_loop_only_fields k : forall changes new new',
+  assoc_loop false k new changes = AssocDone new' ->
+  forall n, In n (map fst changes) -> In n (map a_name (k_attrs k)).
+Proof.
+  induction changes as [|[n v] r IH]; intros new new' H m Hm; [destruct Hm|].
+  cbn [assoc_loop] in H. destruct (name_accepted false k n) eqn:E; [|discriminate].
+  destruct (obj_setattr k new n v) as [n1|e] eqn:Es; [|discriminate].
+  destruct Hm as [<-|Hm]; [|eapply IH; eauto]. cbn [fst].
+  destruct (in_dec string_dec n (map a_name (k_attrs k))) as [Hin|Hout]; [exact Hin|].
+  rewrite (not_field_rejected k n Hout) in E. discriminate.
+Qed.
+
+Lemma reset_cache_spec k c :
+  (forall v, read k c HASH_CACHE = Ok v -> is_none v = false -> storable k HASH_CACHE) ->
+  exists new, reset_cache k c = Ok new /\
+    (forall m, m <> HASH_CACHE -> read k new m = read k c m) /\
+    read k new HASH_CACHE = match read k c HASH_CACHE with Ok _ => Ok VNone | Raise e => Raise e end.
+Proof.
+  intros Hs. unfold reset_cache. destruct (read k c HASH_CACHE) as [v|e] eqn:E.
+  - destruct (is_none v) eqn:N.
+    + exists c. repeat split. rewrite E. destruct v; try discriminate. reflexivity.
+    + destruct (obj_setattr_ok k c HASH_CACHE VNone (Hs v eq_refl N)) as (new & -> & R1 & R2 & _).
+      exists new. auto.
+  - exists c. repeat split. exact E.
+Qed.
+
 (** The instance can be copied: with a generated [__getstate__] every field must be set. *)
 Definition copyable (k : cls_spec) (inh : bool) (i : inst) : Prop :=
   has_getstate k inh = true -> fields_readable k i.
+
+(** The hash-cache attribute of the result of [assoc]. *)
+Definition cache_after (k : cls_spec) (inh : bool) (i : inst) : res val :=
+  if has_getstate k inh
+  then (if k_cache_hash k then Ok VNone else Raise EAttributeError)
+  else match read k i HASH_CACHE with Ok _ => Ok VNone | Raise e => Raise e end.
+
+Lemma copy_reset_spec k inh i :
+  wf k -> copyable k inh i ->
+  exists c0 c, shallow_copy k inh i = Ok c0 /\ reset_cache k c0 = Ok c /\
+    (forall a, In a (k_attrs k) -> read k c (a_name a) = read k i (a_name a)) /\
+    read k c HASH_CACHE = cache_after k inh i.
+Proof.
+  intros W Hc. unfold cache_after.
+  assert (Hname : forall a, In a (k_attrs k) -> a_name a <> HASH_CACHE).
+  { intros a Ha E. apply (wf_cache_name k W). rewrite <- E. now apply in_map. }
+  destruct (has_getstate k inh) eqn:Hg.
+  - destruct (copy_getstate_spec k inh i W Hg (Hc Hg)) as (c0 & E0 & C1 & C2 & C3 & _).
+    destruct (reset_cache_spec k c0) as (c & Er & R1 & R2).
+    { intros v Hv Hn. destruct (k_cache_hash k) eqn:Ch.
+      - rewrite (C2 eq_refl) in Hv. inversion Hv; subst. discriminate.
+      - rewrite (C3 eq_refl) in Hv. discriminate. }
+    exists c0, c. repeat split; auto.
+    + intros a Ha. rewrite R1 by now apply Hname. now apply C1.
+    + rewrite R2. destruct (k_cache_hash k); [now rewrite C2 | now rewrite C3].
+  - destruct (copy_dict_spec k inh i Hg) as (c0 & E0 & C).
+    destruct (reset_cache_spec k c0) as (c & Er & R1 & R2).
+    { intros _ _ _. right. apply (wf_dict k W). unfold has_getstate in Hg. now apply orb_false_iff in Hg as [Hg _]. }
+    exists c0, c. repeat split; auto.
+    + intros a Ha. rewrite R1 by now apply Hname. apply C.
+    + rewrite R2, C. reflexivity.
+Qed.
 
 Theorem assoc_spec_l k inh i changes :
   wf k -> copyable k inh i -> NoDup (map fst changes) ->
@@ -588,60 +658,57 @@ Theorem assoc_spec_l k inh i changes :
                                | Some v => Ok v
                                | None => read k i (a_name a)
                                end) /\
-    (* the hash cache: reset by the generated __setstate__, CARRIED OVER by the dict copy *)
-    (has_getstate k inh = true -> k_cache_hash k = true -> read k new HASH_CACHE = Ok VNone) /\
-    (has_getstate k inh = false -> read k new HASH_CACHE = read k i HASH_CACHE).
+    (* the hash cache is empty wherever the original has one: never carried over *)
+    read k new HASH_CACHE = cache_after k inh i.
 Proof.
-  intros W Hc ND Hk. unfold assoc.
+  intros W Hc ND Hk. unfold assoc, assoc_gen.
   assert (Lc : lookup HASH_CACHE changes = None).
   { apply lookup_none_mem. apply mem_str_false. intros H. apply (wf_cache_name k W). now apply Hk. }
-  destruct (has_getstate k inh) eqn:Hg.
-  - destruct (copy_getstate_spec k inh i W Hg (Hc Hg)) as (c & -> & C1 & C2 & _).
-    destruct (assoc_loop_fields k changes c W ND Hk) as (new & -> & Q).
-    exists new. split; [reflexivity|]. repeat split.
-    + intros a Ha. rewrite Q. destruct (lookup (a_name a) changes); [reflexivity | now apply C1].
-    + intros _ Ch. rewrite Q, Lc. now apply C2.
-    + discriminate.
-  - destruct (copy_dict_spec k inh i Hg) as (c & -> & C).
-    destruct (assoc_loop_fields k changes c W ND Hk) as (new & -> & Q).
-    exists new. split; [reflexivity|]. repeat split.
-    + intros a Ha. rewrite Q. destruct (lookup (a_name a) changes); [reflexivity | apply C].
-    + discriminate.
-    + intros _. rewrite Q, Lc. apply C.
+  destruct (copy_reset_spec k inh i W Hc) as (c0 & c & -> & -> & C1 & C2).
+  destruct (assoc_loop_fields false k changes c W ND Hk) as (new & -> & Q).
+  exists new. split; [reflexivity|]. split.
+  - intros a Ha. rewrite Q. destruct (lookup (a_name a) changes); [reflexivity | now apply C1].
+  - now rewrite Q, Lc.
+Qed.
+
+(** Whatever [assoc] returns was built by stores under field names only (in particular
+    never under [count] / [index]). *)
+Theorem assoc_only_fields_l k inh i changes new :
+  assoc k inh i changes = (i, AssocDone new) ->
+  forall n, In n (map fst changes) -> In n (map a_name (k_attrs k)).
+Proof.
+  unfold assoc, assoc_gen. intros H.
+  destruct (shallow_copy k inh i) as [c0|e]; [|discriminate].
+  destruct (reset_cache k c0) as [c|e]; [|discriminate].
+  inversion H as [H']. eapply assoc_loop_only_fields; eauto.
 Qed.
 
 Theorem assoc_unknown_raises_l k inh i pre n v post :
   wf k -> copyable k inh i ->
   (forall m, In m (map fst pre) -> In m (map a_name (k_attrs k))) ->
-  fields_getattr_found k n = false ->
+  ~ In n (map a_name (k_attrs k)) ->
   assoc k inh i (pre ++ (n, v) :: post) = (i, AssocNotFound).
 Proof.
-  intros W Hc Hk Hn. unfold assoc.
-  assert (Hcopy : exists c, shallow_copy k inh i = Ok c).
-  { destruct (has_getstate k inh) eqn:Hg.
-    - destruct (copy_getstate_spec k inh i W Hg (Hc Hg)) as (c & E & _). eauto.
-    - destruct (copy_dict_spec k inh i Hg) as (c & E & _). eauto. }
-  destruct Hcopy as [c ->].
-  destruct (assoc_loop_prefix k pre c ((n, v) :: post) W Hk) as (new' & ->).
-  cbn [assoc_loop]. now rewrite Hn.
+  intros W Hc Hk Hn. unfold assoc, assoc_gen.
+  destruct (copy_reset_spec k inh i W Hc) as (c0 & c & -> & -> & _).
+  destruct (assoc_loop_prefix false k pre c ((n, v) :: post) W Hk) as (new' & ->).
+  cbn [assoc_loop]. now rewrite (not_field_rejected k n Hn).
 Qed.
 
 Theorem assoc_unset_attribute_error_l k inh i changes a e0 :
   has_getstate k inh = true -> In a (k_attrs k) -> read k i (a_name a) = Raise e0 ->
   assoc k inh i changes = (i, AssocRaised EAttributeError).
-Proof. intros Hg Ha Hr. unfold assoc. now rewrite (copy_unreadable k inh i a e0 Hg Ha Hr). Qed.
+Proof.
+  intros Hg Ha Hr. unfold assoc, assoc_gen. now rewrite (copy_unreadable k inh i a e0 Hg Ha Hr).
+Qed.
 
 Lemma assoc_original_untouched_l k inh i changes : fst (assoc k inh i changes) = i.
-Proof. unfold assoc. destruct (shallow_copy k inh i); reflexivity. Qed.
+Proof.
+  unfold assoc, assoc_gen. destruct (shallow_copy k inh i); [|reflexivity].
+  destruct (reset_cache k a); reflexivity.
+Qed.
 
 (** ** Hash consistency of the result of [assoc] *)
-
-Lemma read_all_ext k a b : forall ns,
-  (forall n, In n ns -> read k a n = read k b n) -> read_all k a ns = read_all k b ns.
-Proof.
-  induction ns as [|n r IH]; intros H; [reflexivity|]. cbn [read_all].
-  rewrite (H n (or_introl eq_refl)). rewrite IH by (intros m Hm; apply H; now right). reflexivity.
-Qed.
 
 Lemma read_all_total k i : forall ns,
   (forall n, In n ns -> exists v, read k i n = Ok v) -> exists vs, read_all k i ns = Ok vs.
@@ -659,45 +726,29 @@ Proof.
   unfold hash_names. intros H. apply in_map_iff in H as (a & Hn & Hf). apply filter_In in Hf as [Ha _]. eauto.
 Qed.
 
-(** With a generated [__getstate__]/[__setstate__] the copy's cache is empty: consistent. *)
-Theorem assoc_getstate_cache_consistent_l k inh i changes :
-  wf k -> has_getstate k inh = true -> fields_readable k i -> k_cache_hash k = true ->
+(** Unguarded (this was K3a): for a hash-caching class, a fully set original that has the
+    cache attribute (as every constructed instance does, whatever was hashed or reassigned
+    before) and any set of field names: the copy's cache is [None], hence consistent with
+    its fields - dict or slotted, with or without a generated [__setstate__]. *)
+Theorem assoc_cache_reset_l k inh i changes c0 :
+  wf k -> k_cache_hash k = true -> fields_readable k i -> read k i HASH_CACHE = Ok c0 ->
   NoDup (map fst changes) ->
   (forall n, In n (map fst changes) -> In n (map a_name (k_attrs k))) ->
-  exists new, assoc k inh i changes = (i, AssocDone new) /\ cache_consistent k new = true.
+  exists new, assoc k inh i changes = (i, AssocDone new) /\
+    read k new HASH_CACHE = Ok VNone /\ cache_consistent k new = true.
 Proof.
-  intros W Hg Hr Ch ND Hk.
-  destruct (assoc_spec_l k inh i changes W (fun _ => Hr) ND Hk) as (new & Ha & F & C & _).
-  exists new. split; [exact Ha|]. unfold cache_consistent. rewrite (C Hg Ch).
+  intros W Ch Hr Hc0 ND Hk.
+  destruct (assoc_spec_l k inh i changes W (fun _ => Hr) ND Hk) as (new & Ha & F & C).
+  assert (Cn : read k new HASH_CACHE = Ok VNone).
+  { rewrite C. unfold cache_after. rewrite Ch, Hc0. now destruct (has_getstate k inh). }
+  exists new. split; [exact Ha|]. split; [exact Cn|]. unfold cache_consistent. rewrite Cn.
   unfold hash_code. fold (hash_names k).
   destruct (read_all_total k new (hash_names k)) as [vs ->]; [|reflexivity].
   intros n Hn. apply hash_names_fields in Hn as (a & Ha' & <-). rewrite (F a Ha').
   destruct (lookup (a_name a) changes); [eauto | now apply Hr].
 Qed.
 
-(** Pure dict chain: consistent when no replaced field takes part in the hash. *)
-Theorem assoc_dict_cache_guarded_l k inh i changes :
-  wf k -> has_getstate k inh = false -> cache_consistent k i = true ->
-  NoDup (map fst changes) ->
-  (forall n, In n (map fst changes) -> In n (map a_name (k_attrs k))) ->
-  (forall n, In n (map fst changes) -> ~ In n (hash_names k)) ->
-  exists new, assoc k inh i changes = (i, AssocDone new) /\ cache_consistent k new = true.
-Proof.
-  intros W Hg Hc ND Hk Hnp.
-  assert (Cp : copyable k inh i) by (intros H; congruence).
-  destruct (assoc_spec_l k inh i changes W Cp ND Hk) as (new & Ha & F & _ & C).
-  exists new. split; [exact Ha|]. unfold cache_consistent in *. rewrite (C Hg).
-  assert (E : hash_code k new = hash_code k i).
-  { unfold hash_code. fold (hash_names k). rewrite (read_all_ext k new i); [reflexivity|].
-    intros n Hn. pose proof Hn as Hn'. apply hash_names_fields in Hn as (a & Ha' & <-). rewrite (F a Ha').
-    destruct (lookup (a_name a) changes) eqn:L; [|reflexivity].
-    exfalso. apply (Hnp (a_name a)); [|exact Hn'].
-    destruct (mem_str (a_name a) (map fst changes)) eqn:M; [now apply mem_str_In|].
-    apply lookup_none_mem in M. congruence. }
-  now rewrite E.
-Qed.
-
-(** ** Witnesses on the faithful model: the two recorded deviations of [assoc] *)
+(** ** Witnesses: the code BEFORE the repairs ([assoc_buggy]) violated both statements *)
 
 Definition k3 : cls_spec :=
   {| k_attrs := [example_attr "x" DNothing CNone None true false;
@@ -720,15 +771,15 @@ Definition k3_original : inst :=
   | _ => empty_inst
   end.
 
-(** K3a: dict class, cache_hash, hash computed, a hash field replaced: the copy keeps the
-    original's hash code although its fields hash differently. *)
-Theorem assoc_stale_cache_refuted_l :
+(** K3a (repaired by 2787de0): dict class, cache_hash, hash computed, a hash field
+    replaced: the old code's copy kept the original's hash code. *)
+Theorem assoc_buggy_stale_cache_refuted_l :
   exists k inh i changes new,
     wf k /\ k_cache_hash k = true /\ has_getstate k inh = false /\
     fields_readable k i /\ cache_consistent k i = true /\
     NoDup (map fst changes) /\
     (forall n, In n (map fst changes) -> In n (hash_names k)) /\
-    assoc k inh i changes = (i, AssocDone new) /\
+    assoc_buggy k inh i changes = (i, AssocDone new) /\
     read k new HASH_CACHE = read k i HASH_CACHE /\
     cache_consistent k new = false.
 Proof.
@@ -739,11 +790,11 @@ Proof.
   - intros n [<-|[]]. vm_compute. auto.
 Qed.
 
-(** K3b: a name that is no field but an attribute of every tuple is accepted. *)
-Theorem assoc_count_index_refuted_l :
+(** K3b (repaired by 1567142): the old code accepted [count] / [index]. *)
+Theorem assoc_buggy_count_index_refuted_l :
   exists k inh i n v new,
     wf k /\ ~ In n (map a_name (k_attrs k)) /\ (n = "count" \/ n = "index") /\
-    assoc k inh i [(n, v)] = (i, AssocDone new) /\ read k new n = Ok v.
+    assoc_buggy k inh i [(n, v)] = (i, AssocDone new) /\ read k new n = Ok v.
 Proof.
   exists k3, false, k3_original, "count", (VTok 5). eexists.
   split; [exact k3_wf|]. split; [|split; [now left | split; reflexivity]].
@@ -808,10 +859,14 @@ Example assoc_spec_nonvacuous :
   wf k3 /\ copyable k3 false k3_original /\
   match assoc k3 false k3_original [("y", VTok 7)] with
   | (i, AssocDone new) =>
-      i = k3_original /\ read k3 new "x" = Ok (VTok 1) /\ read k3 new "y" = Ok (VTok 7)
+      i = k3_original /\ read k3 new "x" = Ok (VTok 1) /\ read k3 new "y" = Ok (VTok 7) /\
+      (* the original's cache is computed, the copy's is empty *)
+      read k3 i HASH_CACHE = Ok (VApp HASH_FN [VTok 1; VDefault "y"]) /\
+      read k3 new HASH_CACHE = Ok VNone
   | _ => False
   end /\
-  assoc k3 false k3_original [("y", VTok 7); ("nope", VTok 8)] = (k3_original, AssocNotFound).
+  assoc k3 false k3_original [("y", VTok 7); ("nope", VTok 8)] = (k3_original, AssocNotFound) /\
+  assoc k3 false k3_original [("count", VTok 5)] = (k3_original, AssocNotFound).
 Proof.
   split; [exact k3_wf|]. split; [intros H; discriminate H|]. vm_compute. repeat split.
 Qed.
